@@ -32,7 +32,19 @@ class _FieldOfDressed:
             else:
                 return getattr(container._xobject, self.name).to_nplike()
         elif hasattr(container, "_dressed_" + self.name):
-            return getattr(container, "_dressed_" + self.name)
+            dressed = getattr(container, "_dressed_" + self.name)
+            if isinstance(getattr(container._XoStruct, self.name).ftype, Ref):
+                # the reference may have been changed through another
+                # object dressing the same memory
+                xobj = getattr(container._xobject, self.name)
+                if (
+                    xobj is None
+                    or xobj._buffer is not dressed._xobject._buffer
+                    or xobj._offset != dressed._xobject._offset
+                ):
+                    delattr(container, "_dressed_" + self.name)
+                    return xobj
+            return dressed
         else:
             return getattr(container._xobject, self.name)
 
